@@ -168,7 +168,7 @@ def jobs(tier):
 LEVEL = 'other'      # bounded stand-ins only: never reported as proof
 TRUSTED = ['tools/cxx2c.py lowering']
 ASSUMPTIONS = [
-    'build_exec (build.cc): only the cases IFELSE ALT SCOPE CAPTURE CLOSE_STAR CLOSE_PLUS OR CAT READ BIND BLOCK FORMAT of its switch are lowered (cxx2c keep_cases; the other cases are dropped and reaching one is a failed obligation); the recursive call is an ASSUMED contract with a ghost call log (records tree, layout, scope, upstream; never shrinks the layout -- re-established for the lowered cases), operator constructors that take a layout reserve an arbitrary non-empty range at its end (contract of layout::reserve, C13), layout::add_union by its C13 contract (props/bx/bx_model.h)',
+    'build_exec (build.cc): only the cases IFELSE ALT SCOPE CAPTURE CLOSE_STAR CLOSE_PLUS OR CAT READ BIND BLOCK FORMAT SUBX_EVAL ASSERT of its switch are lowered (cxx2c keep_cases; the other cases are dropped and reaching one is a failed obligation); the recursive call is an ASSUMED contract with a ghost call log (records tree, layout, scope, upstream; never shrinks the layout -- re-established for the lowered cases), operator constructors that take a layout reserve an arbitrary non-empty range at its end (contract of layout::reserve, C13), layout::add_union by its C13 contract (props/bx/bx_model.h)',
     'stacks are handles naming their contents, copying is the identity, moving a unique_ptr out of an lvalue nulls it (props/c01/alt_model.h); std::vector, std::all_of, scon::get/reset are modelled; the lambda given to std::all_of is lowered and called by the model',
     'each branch is an abstract well-behaved operator chain (props/c01/alt_model2.h): per input it yields 0..2 stacks and then pulls its source (the REAL op_tine::next for ALT, its origin for ||); what real branch operators do is not covered',
     'BOUNDED: 2 branches, <= 2 results per branch and input, <= 2 inputs before and 1 after an exhaustion',
